@@ -52,7 +52,7 @@ def _split(rng, n, parts):
 
 def gen_signal(rng, tier):
     cases = []
-    for _ in range(n_cases(tier, 260, 4000)):
+    for _ in range(n_cases(tier, 500, 4000)):
         k = rng.choice([1, 2, 2, 3])
         n = rng.randrange(1, 6 if tier == "quick" else 10)
         nr = rng.choice([1, 2, 2, 3])
@@ -70,7 +70,7 @@ def gen_signal(rng, tier):
 def gen_chan(kind):
     def gen(rng, tier):
         cases = []
-        for _ in range(n_cases(tier, 220, 3500)):
+        for _ in range(n_cases(tier, 400, 3500)):
             k = rng.choice([1, 2, 2, 3])
             p2 = rng.choice([1, 1, 2]) if kind == "b" else 0
             n = rng.randrange(1, 7 if tier == "quick" else 14)
@@ -104,7 +104,7 @@ F_C11_CORPUS = [
 
 def gen_multichan(rng, tier):
     cases = [dict(c) for c in F_C11_CORPUS]
-    for _ in range(n_cases(tier, 300, 6000)):
+    for _ in range(n_cases(tier, 700, 6000)):
         k = rng.choice([1, 1, 2, 2, 3])
         p2 = rng.choice([1, 1, 1, 2])
         ns = rng.choice([1, 2, 2, 3])
